@@ -118,14 +118,24 @@ func Harness_C14_select() {
 		}
 		locs[i].Upstream = "u"
 	}
+	// the server's own list: a subset, everything, nothing, a name that does not exist (a removed
+	// location), repeated names — also lists exactly as long as the global list without being it
 	var serverLocations []string
-	switch verifChoice("serverNames", 3) {
+	switch verifChoice("serverNames", 7) {
 	case 0:
 		serverLocations = []string{"a"}
 	case 1:
 		serverLocations = []string{"b"}
-	default:
+	case 2:
 		serverLocations = []string{"a", "b"}
+	case 3:
+		serverLocations = []string{"a", "a", "a"}
+	case 4:
+		serverLocations = []string{"b", "removed", "gone"}
+	case 5:
+		serverLocations = []string{"removed"}
+	default:
+		serverLocations = nil
 	}
 	host := []string{"h1", "h2"}[verifChoice("reqHost", 2)]
 	uri := []string{"/a/x", "/b"}[verifChoice("reqURI", 2)]
